@@ -1578,7 +1578,7 @@ def run(ctx: Ctx, driver_ok: bool) -> None:
         directory_family(ctx, tmp)
         corpus(ctx, tmp, batch)
         flush(ctx, batch, drv)
-        n = ctx.pick(70, 700)
+        n = ctx.pick(60, 580)
         for i in range(n):
             size = ctx.rng.choice([8, 12, 16, 24, 32])
             one_schema(ctx, drv, batch, i, tmp, size, n_perm=ctx.pick(2, 3), n_split=ctx.pick(3, 5),
